@@ -17,7 +17,9 @@ pub struct C03 {
 }
 
 /// canonical names, written down independently of the crate's table (RFC 9110 / fetch spelling)
-pub const STD: [&str; 38] = [
+/// (the last five are typed only in histories that have no by-name operation: `N_TYPED_ALWAYS` names are free for every history)
+pub const N_TYPED_ALWAYS: usize = 38;
+pub const STD: [&str; 43] = [
     "Cache-Control",
     "Content-Encoding",
     "Content-Language",
@@ -58,6 +60,11 @@ pub const STD: [&str; 38] = [
     "Sec-WebSocket-Version",
     "Strict-Transport-Security",
     "X-Content-Type-Options",
+    "Age",
+    "Expires",
+    "Allow",
+    "Trailer",
+    "Upgrade",
 ];
 /// names used through the by-name entry point `.x()`: custom ones, and standard ones that no typed operation of this
 /// check touches (so that the two entry points never meet on one header)
@@ -170,6 +177,11 @@ fn set_std(res: &mut Response, h: u8, action: Action) {
         35 => go!(SecWebSocketVersion),
         36 => go!(StrictTransportSecurity),
         37 => go!(XContentTypeOptions),
+        38 => go!(Age),
+        39 => go!(Expires),
+        40 => go!(Allow),
+        41 => go!(Trailer),
+        42 => go!(Upgrade),
         _ => unreachable!(),
     }
 }
@@ -365,7 +377,7 @@ fn small_text() -> impl Strategy<Value = String> {
 }
 fn op_strategy() -> impl Strategy<Value = Op> {
     // bias toward re-use of the same few headers
-    let h = prop_oneof![3 => 0u8..3, 1 => 0u8..(STD.len() as u8)];
+    let h = prop_oneof![3 => 0u8..3, 1 => 0u8..(N_TYPED_ALWAYS as u8)];
     let x = prop_oneof![3 => 0u8..2, 1 => 0u8..4, 2 => 4u8..7];
     prop_oneof![
         5 => (h.clone(), value_strategy()).prop_map(|(h, v)| Op::Set(h, v)),
@@ -398,7 +410,7 @@ fn has_invalid_value(case: &Case) -> bool {
 impl Property for C03 {
     type Case = Case;
     const ID: &'static str = "C03";
-    const RULE: &'static str = "generated: status from the whole Status enum × GET/HEAD × a history of 0–40 (thorough: up to 400, long enough to wrap the 8-bit slot index) public Response operations (set/append/remove on 38 standard headers (every one that is neither framing nor server-set) incl. Content-Type and the misspelt Content-Encoding, 4 custom names and 3 standard names through the by-name entry point `.x()`, Set-Cookie with directive subsets, set_text/html/json/payload, set_stream, drop_content, assignments to the public `status` field — the response goes out with the last one), biased toward re-use of the same header; values printable ASCII/UTF-8 of length 0–5000 without CR/LF/NUL; framing headers never set by hand. Executed inside a real handler, through the real router (complete, HEAD handling) and serializer into a Vec. Oracle: independent response parser + a model of the history (name → latest value under an independently written canonical-name table; appends joined with ', '), framing rules of the statement, bytes written ≤ bytes reserved (hook H3 turns an overrun into a panic). Non-trivial = remove followed by set/append of the same header, or ≥ 3 operations on one header, or a content replacement/drop, or status 204/304, or HEAD; distinct by case.";
+    const RULE: &'static str = "generated: status from the whole Status enum × GET/HEAD × a history of 0–40 (thorough: up to 400, long enough to wrap the 8-bit slot index) public Response operations (set/append/remove on 38 standard headers (every one that is neither framing nor server-set; in 4 % of the histories, which then have no by-name operations, also Age, Expires, Allow, Trailer, Upgrade) incl. Content-Type and the misspelt Content-Encoding, 4 custom names and 3 standard names through the by-name entry point `.x()`, Set-Cookie with directive subsets, set_text/html/json/payload, set_stream, drop_content, assignments to the public `status` field — the response goes out with the last one), biased toward re-use of the same header; values printable ASCII/UTF-8 of length 0–5000 without CR/LF/NUL; framing headers never set by hand. Executed inside a real handler, through the real router (complete, HEAD handling) and serializer into a Vec. Oracle: independent response parser + a model of the history (name → latest value under an independently written canonical-name table; appends joined with ', '), framing rules of the statement, bytes written ≤ bytes reserved (hook H3 turns an overrun into a panic). Non-trivial = remove followed by set/append of the same header, or ≥ 3 operations on one header, or a content replacement/drop, or status 204/304, or HEAD; distinct by case.";
     const ASSUMPTIONS: &'static [&'static str] = &[
         "header values contain no CR/LF/NUL and Content-Length/Transfer-Encoding are never set by hand (documented as the user's responsibility)",
         "1xx and 304 are only checked for self-consistency (the statement does not mention them)",
@@ -420,7 +432,9 @@ impl Property for C03 {
         5000
     }
     fn in_domain(&self, case: &Case) -> bool {
-        !has_invalid_value(case) && STATUSES.contains(&case.status)
+        let by_name = case.ops.iter().any(|o| matches!(o, Op::SetX(..) | Op::AppendX(..) | Op::RemoveX(..)));
+        let late_names = case.ops.iter().any(|o| matches!(o, Op::Set(h, _) | Op::Append(h, _) | Op::Remove(h) if (*h as usize % STD.len()) >= N_TYPED_ALWAYS));
+        !has_invalid_value(case) && STATUSES.contains(&case.status) && !(by_name && late_names)
     }
     fn strategy(&self, tier: Tier) -> BoxedStrategy<Case> {
         let len = match tier {
@@ -430,7 +444,26 @@ impl Property for C03 {
         let ops = len.prop_flat_map(|n| vec(op_strategy(), n));
         let short = prop::option::weighted(0.3, prop_oneof![2 => 1u16..=16, 2 => 17u16..=200, 1 => 201u16..=2000]);
         let interleave = prop::option::weighted(0.15, prop_oneof![3 => Just(0u8), 1 => 0u8..6]);
-        ((0usize..STATUSES.len()), prop::bool::weighted(0.25), ops, short, interleave).prop_map(|(s, head, ops, short_write, interleave)| Case { status: STATUSES[s], head, ops, short_write, interleave }).boxed()
+        // typed operations on the five names otherwise left to the by-name entry point (or left out): only in histories
+        // without by-name operations
+        let late = prop::option::weighted(0.04, vec(((N_TYPED_ALWAYS as u8)..(STD.len() as u8), value_strategy(), 0u8..3, any::<prop::sample::Index>()), 1..5));
+        ((0usize..STATUSES.len()), prop::bool::weighted(0.25), ops, short, interleave, late)
+            .prop_map(|(s, head, mut ops, short_write, interleave, late)| {
+                if let Some(late) = late {
+                    ops.retain(|o| !matches!(o, Op::SetX(..) | Op::AppendX(..) | Op::RemoveX(..)));
+                    for (h, v, kind, at) in late {
+                        let op = match kind {
+                            0 => Op::Set(h, v),
+                            1 => Op::Append(h, v),
+                            _ => Op::Remove(h),
+                        };
+                        let i = at.index(ops.len() + 1);
+                        ops.insert(i, op);
+                    }
+                }
+                Case { status: STATUSES[s], head, ops, short_write, interleave }
+            })
+            .boxed()
     }
 
     fn check(&self, case: &Case, obs: &mut Obs) {
